@@ -861,6 +861,10 @@ std::string sqf::parser::preprocessor::impl_default::instance::parse_ppinstructi
                             args.emplace_back(std::move(arg));
                             arg_start_index = arg_index + 1;
                         }
+                        else if (!ended)
+                        { // an empty parameter name (`F(a,,b)`) is skipped, the scan goes on behind its comma
+                            arg_start_index = arg_index + 1;
+                        }
                     }
                     // Special magic for '#define macro\'
                     content = (trim(line.substr(line[arg_start_index] == ' ' ? arg_start_index + 1 : arg_start_index)));
